@@ -11,7 +11,7 @@ from decimal import Decimal
 from coqemit import cZ, cbool, clist, cnat, copt, cstr, cstrlist, outcome
 
 ID = "C11"
-FACTS = ["Merge", "Bool"]
+FACTS = ["Merge", "Bool", "DupSrc"]
 COQ_HEADER = "From SPV Require Import CorrDefs.CorrC11."
 COQ_CASE_TYPE = "case"
 RULE = ("real ArgumentParser(conflict_resolution=ALWAYS_MERGE); one field `val` of kind {int,float,str,bool,enum,List[int],List[str],"
